@@ -430,7 +430,8 @@ def main_check(prop, tier, seed, repo, replay=None, jobs=None):
                 inconclusive.append("monitor %s reached %d in-domain evaluations (< %d)" % (mname, got, need))
         for key, need in plan.get("min_known", {}).items():
             if key in load_known_findings(prop) and tot["known"].get(key, 0) < need:
-                inconclusive.append("open known finding %s was observed %d times (< %d): its classifier or workload no longer reaches it"
+                # informational only: a tree in which the finding has been repaired must still exit 0
+                tot["notes"].append("open known finding %s was observed %d times (< %d expected on the unrepaired tree)"
                                     % (key, tot["known"].get(key, 0), need))
         for c in plan["classes"]:
             if tot["classes"].get(c, 0) == 0:
